@@ -108,7 +108,10 @@ type family struct {
 	prepareReplay func(cs *gcase)
 	// history: additionally run all first-rule inputs of a case on ONE reused instance (Buffer=in; Reset(); Parse())
 	// under these configs and require every step to equal the fresh-instance result
-	history   []string
+	history []string
+	// pairs: under these configs, consecutive first-rule inputs run on TWO instances initialised from the same option
+	// values (Size 64); the first instance is inspected only after the second has parsed
+	pairs     []string
 	maxDepth  int // drop cases whose derivation nests deeper than this many rule applications (0 = no bound)
 	stateCode func(cs *gcase) func(int) string
 	noexec    bool
@@ -307,9 +310,61 @@ func (f *family) runBatch(peg string, cases []*gcase, vs []variant, bno int) {
 			reqs = append(reqs, corpus.Req{Pkg: pkgName(cs.id, cf.v), Mode: "history", Entry: -1, Hist: hb, Memo: cf.memo, Size: cf.size, U: cf.u, Pretty: cf.pretty, NoExec: f.noexec})
 		}
 	}
+	type pkey struct{ ci, cfi, ea, eb int }
+	pwhere := map[pkey]int{}
+	for ci, cs := range cases {
+		for cfi, cf := range f.configs {
+			use := false
+			for _, h := range f.pairs {
+				use = use || h == cf.name
+			}
+			if !use {
+				continue
+			}
+			prev := -1
+			for ei, e := range cs.entries {
+				if e.rule >= 0 || refs[ci][ei].it.Over {
+					continue
+				}
+				if prev >= 0 && ei%3 == 0 {
+					pwhere[pkey{ci, cfi, prev, ei}] = len(reqs)
+					reqs = append(reqs, corpus.Req{Pkg: pkgName(cs.id, cf.v), Mode: "pair", Entry: -1, In: []byte(cs.entries[prev].input), Hist: [][]byte{[]byte(e.input)}, Memo: cf.memo, Size: 64, Shared: true, NoExec: f.noexec})
+				}
+				prev = ei
+			}
+		}
+	}
 	results, err := cp.Run(reqs, corpus.RunOpts{})
 	if err != nil {
 		die("corpus run: %v", err)
+	}
+	for pk, ri := range pwhere {
+		pr := results[ri]
+		cs := cases[pk.ci]
+		cf := f.configs[pk.cfi]
+		if pr.Lost {
+			continue
+		}
+		id := report.Hash(cs.text, "pair", cf.name, cs.entries[pk.ea].input, cs.entries[pk.eb].input)
+		if pr.Fatal != "" || pr.Panic != "" || len(pr.Hist) != 2 {
+			f.c.run.Violate("pair-crash:"+id, "two instances initialised from the same option values crashed: "+pr.Panic+firstLine(pr.Fatal), map[string]any{"grammar": cs.text, "inputs": []string{cs.entries[pk.ea].input, cs.entries[pk.eb].input}})
+			continue
+		}
+		for k, ei := range []int{pk.ea, pk.eb} {
+			fi, ok := where[key{pk.ci, ei, pk.cfi}]
+			if !ok || results[fi].Lost {
+				continue
+			}
+			f.c.run.Eval(1)
+			f.c.run.Count("paired_instance_results", 1)
+			fresh := results[fi]
+			// Size differs from the fresh run by design; everything observable must not
+			if got, want := resKey(&pr.Hist[k]), resKey(&fresh); got != want {
+				f.c.run.Violate("pair:"+id, fmt.Sprintf("of two instances initialised from the same option values, instance %d (inspected after both had parsed) differs from a parser run alone", k+1),
+					map[string]any{"grammar": cs.text, "config": cf.name, "input_a": cs.entries[pk.ea].input, "input_b": cs.entries[pk.eb].input, "paired": got, "alone": want})
+				break
+			}
+		}
 	}
 	if cp.WatchdogHits > 0 {
 		f.c.run.Incon(fmt.Sprintf("%d child processes were stopped by the wall-clock watchdog", cp.WatchdogHits))
